@@ -32,6 +32,25 @@ def _seated_times(ctx, res, off):
     return ts
 
 
+def _same_tempo_timeline(ctx, A, B):
+    """A, B: [(time, change)] in time order.  Same timeline = at the time of every point of either list the same bpm and
+    metronome are in force in both (a point that repeats what is in force is allowed: in doubles a re-seated list may gain one)."""
+    def at(L, x):
+        cur = L[0][1]
+        for t, c in L:
+            if bool(ctx.le(t, x)):
+                cur = c
+        return cur
+
+    if not A or not B or not ctx.eq(A[0][0], B[0][0]):
+        return False
+    conds = []
+    for x, _c in A + B:
+        a, b = at(A, x), at(B, x)
+        conds.append(ctx.all(ctx.eq(a.bpm, b.bpm), a.metronome == b.metronome))
+    return ctx.all(*conds)
+
+
 def _check_reseat(ctx, label, res, orig_times, orig_L, off, positions, M, seated_already=False):
     ctx.check(label + ".every-change-on-a-measure-line", ctx.all(*[ctx.eq(r.snap.beat, 0) for r in res]))
     ctx.check(label + ".measures-nondecreasing", ctx.all(*[ctx.le(a.snap.measure, b.snap.measure) for a, b in zip(res, res[1:])]))
@@ -97,9 +116,7 @@ def ob_reseat_grid(positions, M, ctx, entry="static"):
     # reseating the seated list again leaves the timeline (which bpm from which time) unchanged
     res2 = TimingMap.reseat_bpm_changes_snap(res)
     t1, t2 = _seated_times(ctx, res, off), _seated_times(ctx, res2, off)
-    ctx.check("reseat-again.same-length", len(res2) == len(res), note="%d -> %d" % (len(res), len(res2)))
-    if len(res2) == len(res):
-        ctx.check("reseat-again.same-timeline", ctx.all(*[ctx.all(ctx.eq(a, b), ctx.eq(x.bpm, y.bpm), x.metronome == y.metronome) for a, b, x, y in zip(t1, t2, res, res2)]))
+    ctx.check("reseat-again.same-timeline", _same_tempo_timeline(ctx, list(zip(t1, res)), list(zip(t2, res2))), note="%d -> %d points" % (len(res), len(res2)))
 
 
 def ob_reseat_mixed(changes, ctx, entry="static"):
@@ -139,7 +156,7 @@ def ob_reseat_mixed(changes, ctx, entry="static"):
             ctx.check("reseat.original%d.keeps-its-bpm-and-metronome" % j, ctx.any(*[ctx.all(ctx.eq(x, t), ctx.eq(r.bpm * Ls[j], 60000), r.metronome == changes[j][2]) for r, x in zip(res, rt)]))
     res2 = TimingMap.reseat_bpm_changes_snap(res)
     t1, t2 = _seated_times(ctx, res, off), _seated_times(ctx, res2, off)
-    ctx.check("reseat-again.same-timeline", len(res2) == len(res) and ctx.all(*[ctx.all(ctx.eq(a, b), ctx.eq(x.bpm, y.bpm), x.metronome == y.metronome) for a, b, x, y in zip(t1, t2, res, res2)]))
+    ctx.check("reseat-again.same-timeline", _same_tempo_timeline(ctx, list(zip(t1, res)), list(zip(t2, res2))), note="%d -> %d points" % (len(res), len(res2)))
 
 
 def ob_bms_read_seated(tname, ctx):
